@@ -8,8 +8,19 @@
 //! `Authorization` / `Proxy-Authorization` rows are read back as text, split by
 //! `ref_digest::split_header` and verified the way the *server that issued the challenge* would:
 //! echo of realm / nonce / opaque / algorithm, qop out of the offered set, digest-uri equal to the
-//! Request-URI of the request line, username (plain, RFC 5987 `username*`, or userhash) equal to the
-//! stored one, and `response` recomputed by `ref_digest` from the STORED credentials.
+//! Request-URI of the request line AS IT GOES ON THE WIRE, username (plain, RFC 5987 `username*`, or
+//! userhash) equal to the stored one, and `response` recomputed by `ref_digest` from the credentials the
+//! `CredentialStore` holds for the realm AT THE TIME the challenge is handled.
+//!
+//! The request on the wire: method and Request-URI are taken from the request line printed with the context
+//! `Endpoint::send_outgoing_request` prints it with (`UriContext::ReqUri`; `wire_by_print`). The sub
+//! `on_the_wire` sends the request through a real `Endpoint` over a mock datagram transport, reads method,
+//! Request-URI and body back from the wire log with the harness's own reader, runs the same verification
+//! against THAT, and fails with `c18.harness/printed-request-differs-from-sent-request` when the two ways
+//! of looking at the request disagree. The request TARGET the application hands over is a `SipUri` VALUE
+//! and may be any such value: with `user:password@`, with uri-parameters, and with embedded headers
+//! (`?Replaces=..&Subject=..`, a Refer-To / Contact URI used as is). ezk does not write the embedded headers
+//! into the Request-URI; the server verifies against what it receives (RFC 7616 §3.4.6, RFC 3261 §22.4).
 //!
 //! Generator restrictions (soundness; each is a restriction of the generator, not of the oracle):
 //!  * realm / nonce / opaque / unknown quoted parameters are `qdtext` (SP, 0x21, 0x23-0x5B, 0x5D-0x7E,
@@ -20,9 +31,11 @@
 //!  * one challenge per header row (RFC 3261 §7.3.1 forbids combining them).
 //!  * user names contain no ':' (RFC 7616 §3.4 forbids it); extension methods do not start with the
 //!    name of a well-known method (that is C01's finding, not this property's).
-//!  * Request-URIs carry no `?headers` (RFC 3261 Table 1 forbids them in a Request-URI); user, host and
-//!    parameter shapes are built through the public `SipUri` API.
-//!  * in `challenge_sequences` / `failure_histories` all challenges of one realm in one response share the
+//!  * user, password, host, parameter and embedded-header shapes of the request target are built through the
+//!    public `SipUri` API; the URI password is drawn from the RFC 3261 `password` characters without escapes
+//!    (ezk prints it verbatim), embedded header names are non-empty and every embedded header has a value
+//!    (possibly empty). What ezk does with the embedded headers otherwise (RFC 3261 §19.1.5) is not asserted.
+//!  * in every history sub all challenges of one realm in one response share the
 //!    nonce and carry distinct algorithms (RFC 8760 §2.4 usage), so the answered challenge is identified by
 //!    `algorithm` and "same nonce again" is unambiguous.
 //!
@@ -41,7 +54,26 @@
 //! rows, fresh nonce without supported challenge}; `challenge_sequences` keeps the broad mix (up to 4
 //! realms, realms without credentials, unknown algorithms, Basic rows).
 //!
-//! Not asserted: what a challenge with the OLD nonce means after the client dropped (or, no request having
+//! Histories of the APPLICATION (`credential_updates`, and with low density in the two other history subs):
+//! between two responses the application may change its `CredentialStore` (`RoundS::store_ops`:
+//! `add_for_realm` replacing the realm's entry — same user with another password, another user with the same
+//! password, another account, the account another realm uses —, `remove_for_realm`, `set_default`) and may go
+//! on with another request (`RoundS::new_req`: other method / Request-URI / body; e.g. the REGISTER was
+//! challenged, later the INVITE is). The model keeps the store's content; a challenge is expected to be answered
+//! with what `get_for_realm` documents at that moment (the realm's entry, else the default, else nothing) and
+//! for the request `RequestParts` names at that moment. A server that re-challenges usually sends a NEW nonce
+//! with the SAME parameters (`GroupS::keep_rows`). Headers answered earlier keep being verified with the
+//! account and for the request they were created with (`authorize_request` sees neither store nor request).
+//! A mismatch that verifies with an account the realm was answered with earlier is named
+//! `c18.creds/replaced-credentials-still-used`, one that verifies for an earlier request
+//! `c18.request/answer-computed-for-an-earlier-request` (first use) / `c18.request/reuse-computed-for-an-earlier-request`
+//! (diagnosis only; the failure is the mismatch). A digest-uri that is the wire's Request-URI plus `?...` is named
+//! `c18.uri/embedded-headers-not-on-the-request-line`, one that is an earlier request's `c18.uri/of-an-earlier-request`.
+//! Scenarios may use ONE account for all realms (`share_account`): H(user:realm:password) still differs.
+//!
+//! Not asserted: whether a header answered BEFORE the store changed switches to the new credentials on reuse
+//! (it cannot: no store access; it is verified with the account it was created with);
+//! what a challenge with the OLD nonce means after the client dropped (or, no request having
 //! been sent, may have dropped) the entry because a challenge with a NEW nonce could not be answered (the
 //! server forgets the old nonce there; while the entry is visibly still sent the old nonce counts as
 //! unchanged); which realms the error text names; case of the `nc` digits (text is hashed verbatim, value compared numerically);
@@ -59,11 +91,13 @@ use sip_auth::digest::{DigestAuthenticator, DigestCredentials};
 use sip_auth::{CredentialStore, RequestParts, UacAuthSession};
 use sip_types::host::{Host, HostPort};
 use sip_types::msg::RequestLine;
-use sip_types::print::{AppendCtx, PrintCtx};
+use crate::world::{mock_datagram, offline_builder, run_world, settle, WireLog, WireMsg};
+use sip_core::transport::TargetTransportInfo;
+use sip_types::print::{AppendCtx, PrintCtx, UriContext};
 use sip_types::uri::params::Param;
-use sip_types::uri::sip::SipUri;
+use sip_types::uri::sip::{SipUri, UserPart, UserPw};
 use sip_types::{Headers, Method, Name};
-use std::net::{Ipv4Addr, Ipv6Addr};
+use std::net::{Ipv4Addr, Ipv6Addr, SocketAddr};
 
 // ------------------------------------------------------------------------------------------
 // case types
@@ -190,6 +224,13 @@ pub struct UriSpec {
     host: HostSpec,
     port: Option<u16>,
     params: Vec<(String, Option<String>)>,
+    /// `user:password@` (RFC 3261 §19.1.1 password grammar; only used together with `user`)
+    #[serde(default)]
+    password: Option<String>,
+    /// embedded headers `?hname=hvalue&..` of the SIP URI VALUE the application hands over as target
+    /// (a Refer-To / Contact URI used as is). They are not part of the Request-URI ezk writes.
+    #[serde(default)]
+    headers: Vec<(String, String)>,
 }
 
 #[derive(Serialize, Deserialize, Debug, Clone, PartialEq, Eq)]
@@ -203,6 +244,17 @@ pub struct ReqSpec {
 pub struct Cred {
     user: String,
     password: String,
+}
+
+/// what the application does to its `CredentialStore` between two responses
+#[derive(Serialize, Deserialize, Debug, Clone, PartialEq, Eq)]
+pub enum StoreOp {
+    /// `add_for_realm(realms[realm], cred)` — adds or REPLACES the entry of the realm
+    Set { realm: usize, cred: Cred },
+    /// `remove_for_realm(realms[realm])`
+    Remove { realm: usize },
+    /// `set_default(cred)`
+    SetDefault { cred: Cred },
 }
 
 /// flat case of `first_use_and_reuse`
@@ -223,6 +275,9 @@ pub struct FirstUse {
     reuses: u8,
     enforce_qop: bool,
     reject_md5: bool,
+    /// `on_the_wire` only: select!-order seed of the world the request is sent in
+    #[serde(default)]
+    rng: u8,
 }
 
 #[derive(Serialize, Deserialize, Debug, Clone)]
@@ -244,6 +299,10 @@ pub struct GroupS {
     /// the identical challenge again) instead of `rows` (same nonce, other algorithm / qop / opaque / kind)
     #[serde(default)]
     same_rows: bool,
+    /// when NOT repeating: a fresh nonce with exactly the rows this realm was challenged with last time
+    /// (what a server does whose nonce expired or that rejected the password: same parameters, new nonce)
+    #[serde(default)]
+    keep_rows: bool,
 }
 
 #[derive(Serialize, Deserialize, Debug, Clone)]
@@ -257,6 +316,13 @@ pub struct RoundS {
     /// after a response none of whose realms is expected to be answered
     #[serde(default)]
     give_up_on_failure: bool,
+    /// applied to the `CredentialStore` (in order) before this response is handled
+    #[serde(default)]
+    store_ops: Vec<StoreOp>,
+    /// from this response on the application (re)sends THIS request (it is what `RequestParts` names);
+    /// headers answered earlier stay verified against the request they were created for
+    #[serde(default)]
+    new_req: Option<ReqSpec>,
 }
 
 /// case of `challenge_sequences` (and the internal form of `first_use_and_reuse`)
@@ -393,14 +459,41 @@ fn uri_strategy() -> BoxedStrategy<UriSpec> {
         "x-[a-z]{1,5}",
     ];
     let param = (pname, prop::option::of("[a-zA-Z0-9.-]{1,8}"));
+    // password = *( unreserved / "&" / "=" / "+" / "$" / "," ) — ezk prints it verbatim, so only the grammar's own characters
+    let password = prop::option::weighted(0.2, "[a-zA-Z0-9&=+$,._~*'()!-]{0,8}");
+    // embedded headers: hname is 1*( hnv-unreserved / unreserved / escaped ) — given here as the DECODED text the
+    // `Param` API takes; hvalue is any text (may be empty), typically a whole header value
+    let hname = prop_oneof![
+        3 => Just("Replaces".to_string()),
+        2 => Just("Subject".to_string()),
+        1 => Just("Require".to_string()),
+        1 => Just("Call-ID".to_string()),
+        1 => Just("body".to_string()),
+        2 => "[A-Za-z][A-Za-z0-9-]{0,8}",
+    ];
+    let hvalue = prop_oneof![
+        3 => "[a-z0-9]{1,8}@[a-z]{1,6}\\.example;to-tag=[a-z0-9]{1,4};from-tag=[a-z0-9]{1,4}",
+        3 => "[a-zA-Z0-9.-]{0,10}",
+        2 => "[ -~]{0,16}",
+        1 => "[a-z äö日%&=?]{1,8}",
+    ];
+    let headers = prop_oneof![
+        3 => Just(vec![]),
+        2 => prop::collection::vec((hname, hvalue), 1..=3),
+    ];
     (
         prop::bool::weighted(0.25),
         user,
         host,
         prop::option::of(1u16..),
         prop::collection::vec(param, 0..3),
+        password,
+        headers,
     )
-        .prop_map(|(sips, user, host, port, params)| UriSpec { sips, user, host, port, params })
+        .prop_map(|(sips, user, host, port, params, password, headers)| {
+            let password = if user.is_some() { password } else { None };
+            UriSpec { sips, user, host, port, params, password, headers }
+        })
         .boxed()
 }
 
@@ -431,10 +524,10 @@ fn first_use_strategy() -> BoxedStrategy<FirstUse> {
         prop::option::weighted(0.6, cred_strategy()),
         req_strategy(),
         1..=5u8,
-        (prop::bool::weighted(0.25), prop::bool::weighted(0.25)),
+        (prop::bool::weighted(0.25), prop::bool::weighted(0.25), any::<u8>()),
     )
         .prop_map(
-            |(ch, realm, nonce, proxy, cred, by_default, decoy, req, reuses, (enforce_qop, reject))| {
+            |(ch, realm, nonce, proxy, cred, by_default, decoy, req, reuses, (enforce_qop, reject, rng))| {
                 // reject_md5 only where the challenge stays supported (this sub is about answered challenges)
                 let reject_md5 = reject && ch.alg >= 2;
                 // a decoy equal to the real credentials would be no decoy
@@ -451,6 +544,7 @@ fn first_use_strategy() -> BoxedStrategy<FirstUse> {
                     reuses,
                     enforce_qop,
                     reject_md5,
+                    rng,
                 }
             },
         )
@@ -466,6 +560,7 @@ struct GroupGen {
     mixed: bool,
     rows: Vec<(bool, ChSpec)>,
     same_rows: bool,
+    keep_rows: bool,
 }
 
 fn group_gen() -> BoxedStrategy<GroupGen> {
@@ -476,9 +571,9 @@ fn group_gen() -> BoxedStrategy<GroupGen> {
         any::<bool>(),
         prop::bool::weighted(0.12),
         prop::collection::vec((any::<bool>(), chspec(false)), 1..=3),
-        any::<bool>(),
+        (any::<bool>(), prop::bool::weighted(0.3)),
     )
-        .prop_map(|(realm_sel, repeat, nonce, proxy, mixed, rows, same_rows)| GroupGen {
+        .prop_map(|(realm_sel, repeat, nonce, proxy, mixed, rows, (same_rows, keep_rows))| GroupGen {
             realm_sel,
             repeat,
             nonce,
@@ -486,6 +581,7 @@ fn group_gen() -> BoxedStrategy<GroupGen> {
             mixed,
             rows,
             same_rows,
+            keep_rows,
         })
         .boxed()
 }
@@ -513,12 +609,128 @@ fn history_group_gen() -> BoxedStrategy<GroupGen> {
                     }
                 }
             }
-            GroupGen { realm_sel, repeat: ev == 1 || ev == 2, nonce, proxy, mixed, rows, same_rows: ev == 1 }
+            GroupGen { realm_sel, repeat: ev == 1 || ev == 2, nonce, proxy, mixed, rows, same_rows: ev == 1, keep_rows: false }
         })
         .boxed()
 }
 
-type RoundGen = (Vec<GroupGen>, bool, u8, bool);
+/// one event of a `credential_updates` round: what the server does to one realm
+///  0 fresh nonce, the SAME challenge rows as last time   1 fresh nonce, new rows
+///  2 the identical challenge again (unchanged nonce)     3 fresh nonce, no supported challenge
+fn update_group_gen() -> BoxedStrategy<GroupGen> {
+    (
+        any::<u16>(),
+        prop_oneof![5 => Just(0u8), 3 => Just(1u8), 1 => Just(2u8), 1 => Just(3u8)],
+        nonce_strategy(false),
+        any::<bool>(),
+        prop::bool::weighted(0.1),
+        prop::collection::vec((any::<bool>(), chspec(true)), 1..=2),
+    )
+        .prop_map(|(realm_sel, ev, nonce, proxy, mixed, mut rows)| {
+            if ev == 3 {
+                for (_, ch) in rows.iter_mut() {
+                    ch.alg = 6 + (ch.alg & 1);
+                }
+            }
+            GroupGen { realm_sel, repeat: ev == 2, nonce, proxy, mixed, rows, same_rows: true, keep_rows: ev == 0 }
+        })
+        .boxed()
+}
+
+/// a change of the credential store between two responses
+///  kind 0 same user, other password (a corrected / rotated password)   1 other user, same password
+///       2 another account   3 the realm's entry is removed (the default, if any, takes over)
+///       4 the account another realm uses right now (one account for registrar and proxy)
+/// `default`: the default entry is the target instead of a realm's entry (a default cannot be removed: kind 3 = 2)
+#[derive(Debug, Clone)]
+struct OpGen {
+    target_sel: u16,
+    other_sel: u16,
+    default: bool,
+    kind: u8,
+    cred: Cred,
+}
+
+fn op_gen(focus: bool) -> BoxedStrategy<OpGen> {
+    let kind = if focus {
+        prop_oneof![5 => Just(0u8), 2 => Just(1u8), 2 => Just(2u8), 1 => Just(3u8), 1 => Just(4u8)].boxed()
+    } else {
+        prop_oneof![3 => Just(0u8), 2 => Just(1u8), 2 => Just(2u8), 2 => Just(3u8), 1 => Just(4u8)].boxed()
+    };
+    (any::<u16>(), any::<u16>(), prop::bool::weighted(0.25), kind, cred_strategy())
+        .prop_map(|(target_sel, other_sel, default, kind, cred)| OpGen { target_sel, other_sel, default, kind, cred })
+        .boxed()
+}
+
+/// the application sends another request from now on: 0 everything new, 1 other method, 2 other URI, 3 other body
+#[derive(Debug, Clone)]
+struct ReqGen {
+    kind: u8,
+    req: ReqSpec,
+}
+
+fn req_gen() -> BoxedStrategy<ReqGen> {
+    (0..4u8, req_strategy()).prop_map(|(kind, req)| ReqGen { kind, req }).boxed()
+}
+
+#[derive(Debug, Clone)]
+struct RoundGen {
+    groups: Vec<GroupGen>,
+    basic_noise: bool,
+    uses: u8,
+    give_up_on_failure: bool,
+    ops: Vec<OpGen>,
+    new_req: Option<ReqGen>,
+}
+
+/// `density`: how often a round changes the store (ops) / the request
+fn round_gen(
+    groups: BoxedStrategy<Vec<GroupGen>>,
+    noise: f64,
+    max_uses: u8,
+    give_up: f64,
+    ops: BoxedStrategy<Vec<OpGen>>,
+    new_req: f64,
+) -> BoxedStrategy<RoundGen> {
+    (
+        groups,
+        prop::bool::weighted(noise),
+        1..=max_uses,
+        prop::bool::weighted(give_up),
+        ops,
+        prop::option::weighted(new_req, req_gen()),
+    )
+        .prop_map(|(groups, basic_noise, uses, give_up_on_failure, ops, new_req)| RoundGen {
+            groups,
+            basic_noise,
+            uses,
+            give_up_on_failure,
+            ops,
+            new_req,
+        })
+        .boxed()
+}
+
+fn derive_cred(old: Option<&Cred>, other: Option<&Cred>, kind: u8, fresh: Cred) -> Cred {
+    match (old, kind) {
+        (Some(o), 0) => {
+            let mut password = fresh.password;
+            if password == o.password {
+                password.push('~');
+            }
+            Cred { user: o.user.clone(), password }
+        }
+        (Some(o), 1) => {
+            let mut user = fresh.user;
+            if user == o.user {
+                user.push('x');
+            }
+            Cred { user, password: o.password.clone() }
+        }
+        (_, 4) => other.cloned().unwrap_or(fresh),
+        _ => fresh,
+    }
+}
 
 #[allow(clippy::too_many_arguments)]
 fn assemble(
@@ -530,6 +742,7 @@ fn assemble(
     reject_md5: bool,
     req: ReqSpec,
     rounds_in: Vec<RoundGen>,
+    share_account: bool,
 ) -> Scenario {
     // distinct realms by construction
     let mut realms: Vec<String> = vec![];
@@ -540,7 +753,19 @@ fn assemble(
             realms.push(r);
         }
     }
-    let entries: Vec<Option<Cred>> = entries_in.into_iter().take(realms.len()).collect();
+    let mut entries: Vec<Option<Cred>> = entries_in.into_iter().take(realms.len()).collect();
+    if share_account {
+        // one account for every realm that has an entry (H(user:realm:password) still differs per realm)
+        if let Some(first) = entries.iter().flatten().next().cloned() {
+            for e in entries.iter_mut().flatten() {
+                *e = first.clone();
+            }
+        }
+    }
+    // the store and the request as they are when a round begins (the ops are derived from them)
+    let mut cur_entries = entries.clone();
+    let mut cur_default = default.clone();
+    let mut cur_req = req.clone();
     let unrelated = unrelated
         .into_iter()
         .map(|c| {
@@ -552,7 +777,51 @@ fn assemble(
         })
         .collect();
     let mut rounds = vec![];
-    for (ri, (groups_in, basic_noise, uses, give_up_on_failure)) in rounds_in.into_iter().enumerate() {
+    for (ri, rg) in rounds_in.into_iter().enumerate() {
+        let RoundGen { groups: groups_in, basic_noise, uses, give_up_on_failure, ops, new_req } = rg;
+        // the first response is handled with the store / request the scenario starts with
+        let mut store_ops = vec![];
+        if ri > 0 {
+            for op in ops {
+                let realm = pick_idx(op.target_sel, realms.len());
+                let other_realm = pick_idx(op.other_sel, realms.len());
+                let other = cur_entries[other_realm].clone().or(cur_default.clone());
+                if op.default {
+                    let kind = if op.kind == 3 { 2 } else { op.kind };
+                    let cred = derive_cred(cur_default.as_ref(), other.as_ref(), kind, op.cred);
+                    cur_default = Some(cred.clone());
+                    store_ops.push(StoreOp::SetDefault { cred });
+                } else if op.kind == 3 {
+                    cur_entries[realm] = None;
+                    store_ops.push(StoreOp::Remove { realm });
+                } else {
+                    // relative to what the realm is answered with right now (its entry, else the default)
+                    let old = cur_entries[realm].clone().or(cur_default.clone());
+                    let cred = derive_cred(old.as_ref(), other.as_ref(), op.kind, op.cred);
+                    cur_entries[realm] = Some(cred.clone());
+                    store_ops.push(StoreOp::Set { realm, cred });
+                }
+            }
+        }
+        let new_req = if ri > 0 {
+            new_req.map(|n| {
+                let mut r = cur_req.clone();
+                match n.kind {
+                    1 => r.method = n.req.method,
+                    2 => r.uri = n.req.uri,
+                    3 => r.body = n.req.body,
+                    _ => r = n.req,
+                }
+                r
+            })
+        } else {
+            None
+        };
+        // (a "new" request equal to the current one is none)
+        let new_req = new_req.filter(|r| *r != cur_req);
+        if let Some(r) = &new_req {
+            cur_req = r.clone();
+        }
         let mut groups: Vec<GroupS> = vec![];
         for g in groups_in {
             let realm = pick_idx(g.realm_sel, realms.len());
@@ -578,31 +847,28 @@ fn assemble(
                 nonce: format!("{}{}", g.nonce, ri),
                 rows,
                 same_rows: g.same_rows,
+                keep_rows: g.keep_rows,
             });
         }
-        rounds.push(RoundS { groups, basic_noise, uses, give_up_on_failure });
+        rounds.push(RoundS { groups, basic_noise, uses, give_up_on_failure, store_ops, new_req });
     }
     Scenario { realms, entries, default, unrelated, enforce_qop, reject_md5, req, rounds }
 }
 
 fn scenario_strategy() -> BoxedStrategy<Scenario> {
-    let round = (
-        prop::collection::vec(group_gen(), 1..=3),
-        prop::bool::weighted(0.15),
-        1..=3u8,
-        prop::bool::weighted(0.25),
-    );
+    let ops = prop_oneof![3 => Just(vec![]), 1 => prop::collection::vec(op_gen(false), 1..=2)].boxed();
+    let round = round_gen(prop::collection::vec(group_gen(), 1..=3).boxed(), 0.15, 3, 0.25, ops, 0.15);
     (
         prop::collection::vec(qdtext(false), 1..=4),
         prop::collection::vec(prop::option::weighted(0.8, cred_strategy()), 4),
         prop::option::weighted(0.5, cred_strategy()),
         prop::option::weighted(0.3, cred_strategy()),
-        (prop::bool::weighted(0.25), prop::bool::weighted(0.25)),
+        (prop::bool::weighted(0.25), prop::bool::weighted(0.25), prop::bool::weighted(0.15)),
         req_strategy(),
         prop::collection::vec(round, 1..=4),
     )
-        .prop_map(|(realms_in, entries_in, default, unrelated, (enforce_qop, reject_md5), req, rounds_in)| {
-            assemble(realms_in, entries_in, default, unrelated, enforce_qop, reject_md5, req, rounds_in)
+        .prop_map(|(realms_in, entries_in, default, unrelated, (enforce_qop, reject_md5, share), req, rounds_in)| {
+            assemble(realms_in, entries_in, default, unrelated, enforce_qop, reject_md5, req, rounds_in, share)
         })
         .boxed()
 }
@@ -610,15 +876,11 @@ fn scenario_strategy() -> BoxedStrategy<Scenario> {
 /// long histories over few realms: what the session does AFTER a failure it has reported
 /// (the same nonce a 2nd, 3rd, .. time; a fresh nonce after n repetitions; an unanswerable challenge in between)
 fn history_strategy() -> BoxedStrategy<Scenario> {
-    let round = (
-        prop::collection::vec(history_group_gen(), 1..=2),
-        prop::bool::weighted(0.1),
-        1..=2u8,
-        prop::bool::weighted(0.4),
-    );
+    let ops = prop_oneof![5 => Just(vec![]), 1 => prop::collection::vec(op_gen(false), 1..=2)].boxed();
+    let round = round_gen(prop::collection::vec(history_group_gen(), 1..=2).boxed(), 0.1, 2, 0.4, ops, 0.1);
     (
         prop::collection::vec(qdtext(false), 1..=2),
-        // every realm can be answered: by its own entry or by the default
+        // every realm can be answered at the start: by its own entry or by the default (a later store op may remove it)
         (cred_strategy(), prop::collection::vec(prop::option::weighted(0.7, cred_strategy()), 2), any::<bool>()),
         (prop::bool::weighted(0.25), prop::bool::weighted(0.2)),
         req_strategy(),
@@ -627,7 +889,28 @@ fn history_strategy() -> BoxedStrategy<Scenario> {
         .prop_map(|(realms_in, (default, entries_in, keep_default), (enforce_qop, reject_md5), req, rounds_in)| {
             let all_entries = entries_in.iter().take(realms_in.len()).all(|e| e.is_some());
             let default = if all_entries && !keep_default { None } else { Some(default) };
-            assemble(realms_in, entries_in, default, None, enforce_qop, reject_md5, req, rounds_in)
+            assemble(realms_in, entries_in, default, None, enforce_qop, reject_md5, req, rounds_in, false)
+        })
+        .boxed()
+}
+
+/// the application changes its `CredentialStore` (and sometimes the request) between responses while the
+/// server keeps challenging the same realms: mostly a NEW nonce with the SAME parameters after the account
+/// of the realm got another password / user / was removed / was added
+fn update_strategy() -> BoxedStrategy<Scenario> {
+    let ops = prop_oneof![1 => Just(vec![]), 3 => prop::collection::vec(op_gen(true), 1..=2)].boxed();
+    let round = round_gen(prop::collection::vec(update_group_gen(), 1..=2).boxed(), 0.05, 3, 0.1, ops, 0.2);
+    (
+        prop::collection::vec(qdtext(false), 1..=2),
+        (cred_strategy(), prop::collection::vec(prop::option::weighted(0.7, cred_strategy()), 2), any::<bool>()),
+        (prop::bool::weighted(0.25), prop::bool::weighted(0.2), prop::bool::weighted(0.25)),
+        req_strategy(),
+        prop::collection::vec(round, 2..=5),
+    )
+        .prop_map(|(realms_in, (default, entries_in, keep_default), (enforce_qop, reject_md5, share), req, rounds_in)| {
+            let all_entries = entries_in.iter().take(realms_in.len()).all(|e| e.is_some());
+            let default = if all_entries && !keep_default { None } else { Some(default) };
+            assemble(realms_in, entries_in, default, None, enforce_qop, reject_md5, req, rounds_in, share)
         })
         .boxed()
 }
@@ -654,6 +937,8 @@ struct Accepted {
     nc: Option<u32>,
     proxy: bool,
     uses: u32,
+    /// index into `Ctx::wires`: the request the header was created for
+    wire: usize,
 }
 
 fn alg_class(a: Alg) -> &'static str {
@@ -753,9 +1038,21 @@ fn expected_response(
     wire: &Wire,
     qop: Option<&str>,
 ) -> Result<String, (String, String)> {
+    // digest-uri as given in the credentials (that it is the Request-URI of `wire` is checked separately, once)
+    expected_response_for(c, alg, ha1, &wire.method, c.get("uri").unwrap_or(""), &wire.body, qop)
+}
+
+fn expected_response_for(
+    c: &Credentials,
+    alg: Alg,
+    ha1: &str,
+    method: &str,
+    uri: &str,
+    body: &[u8],
+    qop: Option<&str>,
+) -> Result<String, (String, String)> {
     let nonce = c.get("nonce").unwrap_or("");
-    let uri = c.get("uri").unwrap_or("");
-    let ha2 = rd::ha2(alg.hash, qop, &wire.method, uri, &wire.body).map_err(|e| ("c18.echo/qop-unknown".to_string(), e))?;
+    let ha2 = rd::ha2(alg.hash, qop, method, uri, body).map_err(|e| ("c18.echo/qop-unknown".to_string(), e))?;
     let q = match qop {
         Some(q) => {
             let nc = c.get("nc").ok_or(("c18.fields/missing:nc".to_string(), "qop without nc".to_string()))?;
@@ -783,7 +1080,14 @@ fn compute_ha1(c: &Credentials, alg: Alg, realm: &str, cred: &Cred) -> Result<St
 
 struct Ctx<'a> {
     sc: &'a Scenario,
-    wire: &'a Wire,
+    /// every request of the scenario as it goes on the wire; `cur` is the one being (re)sent now
+    wires: Vec<Wire>,
+    cur: usize,
+    /// every account the store holds right now (diagnosis only: "verifies with another entry")
+    others: Vec<Cred>,
+    /// per realm: accounts the realm was answered with earlier that the store no longer gives for it
+    /// (diagnosis only: "verifies with credentials that were replaced")
+    stale: Vec<Vec<Cred>>,
     flags: Flags,
 }
 
@@ -796,6 +1100,11 @@ struct Flags {
     non_ascii_cred: bool,
     /// a second or later consecutive repetition of the answered nonce was reported as failure
     repeat_again: bool,
+    /// a header verified with credentials that were put into the store after the session's first answer
+    updated_creds: bool,
+    /// a header verified for a request other than the one the session started with
+    changed_request: bool,
+    verified_any: bool,
 }
 
 /// first use of credentials answering `group` (issued with `nonce`)
@@ -804,14 +1113,15 @@ fn verify_first(
     cx: &mut Ctx,
     c: &Credentials,
     row_is_proxy: bool,
-    group: &GroupS,
+    realm_idx: usize,
+    rows: &[RowS],
     nonce: &str,
     cred: &Cred,
     prev: Option<&Accepted>,
     out: &mut CaseOut,
 ) -> Option<Accepted> {
     let sc = cx.sc;
-    let realm = sc.realms[group.realm].as_str();
+    let realm = sc.realms[realm_idx].as_str();
     if !structural(c, out) {
         return None;
     }
@@ -832,21 +1142,21 @@ fn verify_first(
         out.fail("c18.echo/algorithm-unknown", format!("algorithm {:?}", c.get("algorithm")));
         return None;
     };
-    let Some(row) = group.rows.iter().find(|r| r.ch.alg_model() == Some(alg)) else {
+    let Some(row) = rows.iter().find(|r| r.ch.alg_model() == Some(alg)) else {
         out.fail(
             "c18.echo/algorithm-not-offered",
             format!(
                 "credentials use algorithm {:?}, offered: {:?}",
                 c.get("algorithm"),
-                group.rows.iter().map(|r| ALG_TOKENS[r.ch.alg as usize]).collect::<Vec<_>>()
+                rows.iter().map(|r| ALG_TOKENS[r.ch.alg as usize]).collect::<Vec<_>>()
             ),
         );
         return None;
     };
     let ch = &row.ch;
     // first supported challenge of the realm (per header kind, see module doc)
-    let first_www = group.rows.iter().find(|r| !r.proxy && r.ch.supported(sc.reject_md5));
-    let first_proxy = group.rows.iter().find(|r| r.proxy && r.ch.supported(sc.reject_md5));
+    let first_www = rows.iter().find(|r| !r.proxy && r.ch.supported(sc.reject_md5));
+    let first_proxy = rows.iter().find(|r| r.proxy && r.ch.supported(sc.reject_md5));
     let is_first = [first_www, first_proxy].iter().flatten().any(|r| r.ch.alg == ch.alg);
     if !is_first {
         let what = if ch.supported(sc.reject_md5) { "not the first supported one" } else { "not a supported one" };
@@ -920,11 +1230,19 @@ fn verify_first(
         }
     }
     check_username(c, alg, realm, cred, ch.userhash == 1, out);
-    if c.get("uri").unwrap() != cx.wire.uri {
-        out.fail(
-            "c18.uri/differs-from-request-line",
-            format!("digest-uri {:?}, Request-URI on the wire {:?}", c.get("uri").unwrap(), cx.wire.uri),
-        );
+    let wire = &cx.wires[cx.cur];
+    if c.get("uri").unwrap() != wire.uri {
+        // RFC 7616 §3.4.6 / RFC 3261 §22.4: the server checks uri= against the Request-URI it received (and builds
+        // A2 from it). Name the two ways a client gets there that are not a mere printing difference:
+        let got = c.get("uri").unwrap();
+        let sig = if got.strip_prefix(wire.uri.as_str()).map_or(false, |rest| rest.starts_with('?')) {
+            "c18.uri/embedded-headers-not-on-the-request-line"
+        } else if cx.wires.iter().enumerate().any(|(i, w)| i != cx.cur && w.uri == got) {
+            "c18.uri/of-an-earlier-request"
+        } else {
+            "c18.uri/differs-from-request-line"
+        };
+        out.fail(sig, format!("digest-uri {got:?}, Request-URI on the wire {:?}", wire.uri));
     }
     // response
     let sig = format!("c18.response/{}:{}:first", alg_class(alg), qop_class(qop));
@@ -935,7 +1253,7 @@ fn verify_first(
             return None;
         }
     };
-    let want = match expected_response(c, alg, &ha1, cx.wire, qop) {
+    let want = match expected_response(c, alg, &ha1, wire, qop) {
         Ok(w) => w,
         Err((s, m)) => {
             out.fail(s, m);
@@ -944,18 +1262,35 @@ fn verify_first(
     };
     let got = c.get("response").unwrap();
     if got != want {
-        // would it verify for another account of the store?
-        let mut others: Vec<&Cred> = sc.entries.iter().flatten().collect();
-        others.extend(sc.default.iter());
-        others.extend(sc.unrelated.iter().map(|u| &u.1));
-        let other_ok = others.iter().any(|o| {
-            *o != cred
-                && compute_ha1(c, alg, realm, o)
-                    .ok()
-                    .and_then(|h| expected_response(c, alg, &h, cx.wire, qop).ok())
-                    .map_or(false, |w| w == got)
-        });
-        if other_ok {
+        // diagnosis (the failure is the mismatch; this only names it): would it verify with an account the realm
+        // was answered with before the store changed, with another account of the store, for an earlier request?
+        let verifies_with = |o: &Cred, w: &Wire| {
+            compute_ha1(c, alg, realm, o)
+                .ok()
+                .and_then(|h| expected_response(c, alg, &h, w, qop).ok())
+                .map_or(false, |x| x == got)
+        };
+        let stale_ok = cx.stale[realm_idx].iter().any(|o| o != cred && verifies_with(o, wire));
+        let other_ok = cx.others.iter().any(|o| o != cred && verifies_with(o, wire));
+        let earlier_req_ok = cx.wires.iter().enumerate().any(|(i, w)| i != cx.cur && verifies_with(cred, w));
+        if stale_ok {
+            out.fail(
+                "c18.creds/replaced-credentials-still-used",
+                format!(
+                    "response verifies with credentials realm {realm:?} was answered with EARLIER in this session; the store \
+                     has other credentials for the realm now (user {:?}) and those do not verify it",
+                    cred.user
+                ),
+            );
+        } else if earlier_req_ok {
+            out.fail(
+                "c18.request/answer-computed-for-an-earlier-request",
+                format!(
+                    "response verifies for method/Request-URI/body of a request this session answered earlier, not for {} {}",
+                    wire.method, wire.uri
+                ),
+            );
+        } else if other_ok {
             out.fail(
                 "c18.creds/wrong-entry",
                 format!("response verifies with another entry of the store, not with the one for realm {realm:?}"),
@@ -978,6 +1313,8 @@ fn verify_first(
     cx.flags.auth_int |= qop == Some("auth-int");
     cx.flags.userhash |= c.get("userhash").map_or(false, |v| v.eq_ignore_ascii_case("true"));
     cx.flags.non_ascii_cred |= !cred.user.is_ascii() || !cred.password.is_ascii();
+    cx.flags.changed_request |= cx.cur > 0;
+    cx.flags.verified_any = true;
     class_first(out, alg, qop, c, ch, row_is_proxy);
     Some(Accepted {
         nonce: nonce.to_string(),
@@ -989,6 +1326,7 @@ fn verify_first(
         nc,
         proxy: row_is_proxy,
         uses: 1,
+        wire: cx.cur,
     })
 }
 
@@ -1079,10 +1417,25 @@ fn verify_reuse(cx: &mut Ctx, acc: &mut Accepted, c: &Credentials, row_is_proxy:
     }
     acc.uses += 1;
     let sig = format!("c18.response/{}:{}:reuse", alg_class(acc.alg), qop_class(qop.as_deref()));
-    match expected_response(c, acc.alg, &acc.ha1, cx.wire, qop.as_deref()) {
+    match expected_response(c, acc.alg, &acc.ha1, &cx.wires[acc.wire], qop.as_deref()) {
         Ok(want) => {
             let got = c.get("response").unwrap();
-            if got != want {
+            // diagnosis only: A2 of a request this session answered EARLIER (its method, Request-URI, body)?
+            let earlier = got != want && cx.wires.iter().enumerate().any(|(i, w)| {
+                i != acc.wire
+                    && expected_response_for(c, acc.alg, &acc.ha1, &w.method, &w.uri, &w.body, qop.as_deref()).map_or(false, |x| x == got)
+            });
+            if got != want && earlier {
+                out.fail(
+                    "c18.request/reuse-computed-for-an-earlier-request",
+                    format!(
+                        "use number {}: response verifies for method/Request-URI/body of a request this session answered earlier, not for {} {}",
+                        acc.uses,
+                        cx.wires[acc.wire].method,
+                        cx.wires[acc.wire].uri
+                    ),
+                );
+            } else if got != want {
                 out.fail(
                     sig,
                     format!(
@@ -1122,6 +1475,9 @@ fn build_uri(u: &UriSpec) -> SipUri {
     let mut uri = SipUri::new(HostPort { host, port: u.port }).sips(u.sips);
     if let Some(user) = &u.user {
         uri = uri.user(user.as_str().into());
+        if let Some(pw) = &u.password {
+            uri.user_part = UserPart::UserPw(Box::new(UserPw { user: user.as_str().into(), password: pw.as_str().into() }));
+        }
     }
     for (n, v) in &u.params {
         match v {
@@ -1129,7 +1485,64 @@ fn build_uri(u: &UriSpec) -> SipUri {
             None => uri.uri_params.push(Param::name(n.as_str())),
         }
     }
+    for (n, v) in &u.headers {
+        uri.header_params.push(Param::value(n.as_str(), v.as_str()));
+    }
     uri
+}
+
+fn request_line(req: &ReqSpec) -> RequestLine {
+    RequestLine { method: Method::from(req.method.as_str()), uri: Box::new(build_uri(&req.uri)) }
+}
+
+fn split_request_line(text: &str, body: &[u8]) -> Result<Wire, String> {
+    let parts: Vec<&str> = text.split(' ').collect();
+    if parts.len() != 3 || parts[2] != "SIP/2.0" {
+        return Err(format!("unexpected request line {text:?}"));
+    }
+    Ok(Wire { method: parts[0].to_string(), uri: parts[1].to_string(), body: body.to_vec() })
+}
+
+/// The request as it goes on the wire, without sending it: the request line printed with exactly the
+/// context `Endpoint::send_outgoing_request` prints it with (sip-core/src/endpoint.rs: `PrintCtx { method:
+/// Some(&line.method), uri: Some(UriContext::ReqUri) }`). `on_the_wire` checks this against a real send.
+fn wire_by_print(req: &ReqSpec) -> Result<Wire, String> {
+    let line = request_line(req);
+    let text = line
+        .print_ctx(PrintCtx { method: Some(&line.method), uri: Some(UriContext::ReqUri) })
+        .to_string();
+    split_request_line(&text, &req.body)
+}
+
+/// The request as it goes on the wire: sent through a real `Endpoint` over a mock datagram transport, read back
+/// from the wire log with the harness's own message reader (method, Request-URI, body after Content-Length).
+fn wire_by_endpoint(req: &ReqSpec, rng: u8) -> Result<Wire, String> {
+    let req = req.clone();
+    run_world(rng as u64, |clock| async move {
+        let log = WireLog::new(clock);
+        let (tp, _id) = mock_datagram(&log, "UDP", false, false, "10.0.0.1:5060");
+        let endpoint = offline_builder().build();
+        let peer: SocketAddr = "192.0.2.1:5060".parse().unwrap();
+        let mut target = TargetTransportInfo { via_host_port: None, transport: Some((tp, peer)) };
+        let mut request = sip_core::Request {
+            line: request_line(&req),
+            headers: Headers::new(),
+            body: bytes::Bytes::from(req.body.clone()),
+        };
+        request.headers.insert(Name::VIA, "SIP/2.0/UDP 10.0.0.1:5060;branch=z9hG4bKc18");
+        request.headers.insert(Name::FROM, "<sip:alice@example.org>;tag=c18");
+        request.headers.insert(Name::TO, "<sip:bob@example.net>");
+        request.headers.insert(Name::CALL_ID, "c18-call@example.org");
+        request.headers.insert(Name::CSEQ, format!("1 {}", req.method));
+        request.headers.insert(Name::MAX_FORWARDS, "70");
+        let mut outgoing = endpoint.create_outgoing(request, &mut target).await.map_err(|e| format!("create_outgoing: {e}"))?;
+        endpoint.send_outgoing_request(&mut outgoing).await.map_err(|e| format!("send_outgoing_request: {e}"))?;
+        settle().await;
+        let sent = log.snapshot();
+        let first = sent.first().ok_or("nothing was sent")?;
+        let msg = WireMsg::parse(&first.bytes).ok_or("the sent request cannot be read")?;
+        split_request_line(&msg.start, &msg.body)
+    })
 }
 
 fn auth_rows(h: &Headers) -> Vec<(bool, String)> {
@@ -1154,7 +1567,11 @@ enum Outcome {
     Unsupported,
 }
 
-fn run_scenario(sc: &Scenario, out: &mut CaseOut) {
+fn digest_cred(c: &Cred) -> DigestCredentials {
+    DigestCredentials::new(c.user.clone(), c.password.clone())
+}
+
+fn run_scenario(sc: &Scenario, wire_of: &dyn Fn(&ReqSpec) -> Result<Wire, String>, out: &mut CaseOut) {
     // --- the client side, as a caller sets it up
     let mut store = CredentialStore::new();
     for (realm, e) in sc.realms.iter().zip(&sc.entries) {
@@ -1173,23 +1590,45 @@ fn run_scenario(sc: &Scenario, out: &mut CaseOut) {
     authenticator.reject_md5 = sc.reject_md5;
     let mut session = UacAuthSession::new(authenticator);
 
-    let line = RequestLine {
-        method: Method::from(sc.req.method.as_str()),
-        uri: Box::new(build_uri(&sc.req.uri)),
-    };
-    // the request line as `Endpoint::send_outgoing_request` writes it
-    let wire_line = line
-        .print_ctx(PrintCtx { method: Some(&line.method), uri: None })
-        .to_string();
-    let parts: Vec<&str> = wire_line.split(' ').collect();
-    if parts.len() != 3 || parts[2] != "SIP/2.0" {
-        out.fail("c18.harness/request-line", format!("unexpected request line {wire_line:?}"));
-        return;
+    // every request of the scenario: what the application hands to ezk (`lines`) and what goes on the wire
+    let reqs: Vec<&ReqSpec> = std::iter::once(&sc.req).chain(sc.rounds.iter().filter_map(|r| r.new_req.as_ref())).collect();
+    let lines: Vec<RequestLine> = reqs.iter().map(|r| request_line(r)).collect();
+    let mut wires = vec![];
+    for r in &reqs {
+        match wire_of(r) {
+            Ok(w) => wires.push(w),
+            Err(e) => {
+                out.fail("c18.harness/request-line", e);
+                return;
+            }
+        }
     }
-    let wire = Wire { method: parts[0].to_string(), uri: parts[1].to_string(), body: sc.req.body.clone() };
     let request_headers = Headers::new();
 
-    let mut cx = Ctx { sc, wire: &wire, flags: Flags::default() };
+    // the store as the model sees it
+    let mut cur_entries: Vec<Option<Cred>> = sc.entries.clone();
+    let mut cur_default: Option<Cred> = sc.default.clone();
+    let effective = |entries: &Vec<Option<Cred>>, default: &Option<Cred>, realm: usize| -> Option<Cred> {
+        entries[realm].clone().or(default.clone())
+    };
+    let all_accounts = |entries: &Vec<Option<Cred>>, default: &Option<Cred>| -> Vec<Cred> {
+        let mut v: Vec<Cred> = entries.iter().flatten().cloned().collect();
+        v.extend(default.iter().cloned());
+        v.extend(sc.unrelated.iter().map(|u| u.1.clone()));
+        v
+    };
+    // the account each realm's latest verified answer was made with
+    let mut answered_with: Vec<Option<Cred>> = sc.realms.iter().map(|_| None).collect();
+    let mut store_changed = false;
+
+    let mut cx = Ctx {
+        sc,
+        wires,
+        cur: 0,
+        others: all_accounts(&cur_entries, &cur_default),
+        stale: sc.realms.iter().map(|_| vec![]).collect(),
+        flags: Flags::default(),
+    };
     let mut state: Vec<Option<Accepted>> = sc.realms.iter().map(|_| None).collect();
     // realms whose current entry failed verification: nothing more is derived from that entry
     // (no follow-on failures) until the realm is answered anew
@@ -1209,6 +1648,59 @@ fn run_scenario(sc: &Scenario, out: &mut CaseOut) {
     let mut had_repeat_failure = false;
 
     for round in &sc.rounds {
+        // --- the application: updates its credential store / goes on with another request
+        for op in &round.store_ops {
+            let before: Vec<Option<Cred>> = (0..sc.realms.len()).map(|i| effective(&cur_entries, &cur_default, i)).collect();
+            match op {
+                StoreOp::Set { realm, cred } => {
+                    store.add_for_realm(sc.realms[*realm].clone(), digest_cred(cred));
+                    cur_entries[*realm] = Some(cred.clone());
+                }
+                StoreOp::Remove { realm } => {
+                    store.remove_for_realm(&sc.realms[*realm]);
+                    cur_entries[*realm] = None;
+                }
+                StoreOp::SetDefault { cred } => {
+                    store.set_default(digest_cred(cred));
+                    cur_default = Some(cred.clone());
+                }
+            }
+            for (i, old) in before.iter().enumerate() {
+                let new = effective(&cur_entries, &cur_default, i);
+                if *old == new {
+                    continue;
+                }
+                store_changed = true;
+                out.class(match (old, &new) {
+                    (None, Some(_)) => "store:realm-got-credentials",
+                    (Some(_), None) => "store:realm-lost-its-credentials",
+                    (Some(o), Some(n)) if o.user == n.user => "store:password-replaced-same-user",
+                    (Some(o), Some(n)) if o.password == n.password => "store:user-replaced-same-password",
+                    _ => "store:account-replaced",
+                });
+                if state[i].is_some() && answered_with[i] != new {
+                    out.class("store:changed-for-a-realm-with-a-live-answer");
+                }
+            }
+            cx.others = all_accounts(&cur_entries, &cur_default);
+        }
+        if let Some(nr) = &round.new_req {
+            cx.cur += 1;
+            let old = reqs[cx.cur - 1];
+            out.class("request:changed-between-responses");
+            if old.method != nr.method {
+                out.class("request:other-method");
+            }
+            if old.uri != nr.uri {
+                out.class("request:other-uri");
+            }
+            if old.body != nr.body {
+                out.class("request:other-body");
+            }
+        }
+        let line = &lines[cx.cur];
+        let body: &[u8] = &reqs[cx.cur].body;
+
         // --- the server side: issue challenges
         let mut chal = Headers::new();
         let mut outcomes: Vec<(usize, Outcome, String)> = vec![];
@@ -1218,12 +1710,16 @@ fn run_scenario(sc: &Scenario, out: &mut CaseOut) {
             let repeating = known.is_some();
             let nonce = known.unwrap_or_else(|| g.nonce.clone());
             let identical = repeating && g.same_rows && srv_rows[g.realm].is_some();
-            let rows: Vec<RowS> = if identical { srv_rows[g.realm].clone().unwrap() } else { g.rows.clone() };
+            let kept = !g.repeat && g.keep_rows && srv_rows[g.realm].is_some();
+            let rows: Vec<RowS> = if identical || kept { srv_rows[g.realm].clone().unwrap() } else { g.rows.clone() };
+            if kept {
+                out.class("round:new-nonce-with-the-rows-of-the-last-challenge");
+            }
             for r in &rows {
                 let name = if r.proxy { Name::PROXY_AUTHENTICATE } else { Name::WWW_AUTHENTICATE };
                 chal.insert(name, r.ch.print(&sc.realms[g.realm], &nonce));
             }
-            let cred = sc.entries[g.realm].as_ref().or(sc.default.as_ref());
+            let cred = effective(&cur_entries, &cur_default, g.realm);
             let any_supported = rows.iter().any(|r| r.ch.supported(sc.reject_md5));
             let oc = if cred.is_none() {
                 Outcome::NoCreds
@@ -1294,7 +1790,7 @@ fn run_scenario(sc: &Scenario, out: &mut CaseOut) {
         let result = session.handle_authenticate(
             &chal,
             &store,
-            RequestParts { line: &line, headers: &request_headers, body: &sc.req.body },
+            RequestParts { line, headers: &request_headers, body },
         );
 
         let any_repeat = outcomes.iter().any(|o| o.1 == Outcome::Repeat);
@@ -1375,7 +1871,7 @@ fn run_scenario(sc: &Scenario, out: &mut CaseOut) {
                 }
             }
             if out.note.is_none() && !rows.is_empty() {
-                out.note = Some(format!("{} {} -> {}", wire.method, wire.uri, rows[0].1));
+                out.note = Some(format!("{} {} -> {}", cx.wires[cx.cur].method, cx.wires[cx.cur].uri, rows[0].1));
             }
             for (ri, got) in by_realm.iter().enumerate() {
                 if got.len() > 1 {
@@ -1389,8 +1885,9 @@ fn run_scenario(sc: &Scenario, out: &mut CaseOut) {
                 let oc = if use_no == 0 { outcomes.iter().find(|o| o.0 == ri) } else { None };
                 match oc {
                     Some((_, Outcome::Answer, nonce)) => {
-                        let group = round.groups.iter().find(|g| g.realm == ri).unwrap();
-                        let cred = sc.entries[ri].as_ref().or(sc.default.as_ref()).unwrap().clone();
+                        // the rows the realm was challenged with in this response
+                        let issued: Vec<RowS> = srv_rows[ri].clone().unwrap_or_default();
+                        let cred = effective(&cur_entries, &cur_default, ri).unwrap();
                         match got {
                             None => {
                                 broken[ri] = false;
@@ -1408,13 +1905,31 @@ fn run_scenario(sc: &Scenario, out: &mut CaseOut) {
                             Some((is_proxy, c)) => {
                                 maybe_dropped[ri] = false;
                                 let prev = state[ri].take();
-                                state[ri] = verify_first(&mut cx, c, *is_proxy, group, nonce, &cred, prev.as_ref(), out);
+                                state[ri] = verify_first(&mut cx, c, *is_proxy, ri, &issued, nonce, &cred, prev.as_ref(), out);
                                 broken[ri] = state[ri].is_none();
                                 srv_nonce[ri] = state[ri].as_ref().map(|a| a.nonce.clone());
-                                if sc.entries[ri].is_some() && sc.default.is_some() && state[ri].is_some() {
+                                if cur_entries[ri].is_some() && cur_default.is_some() && state[ri].is_some() {
                                     out.class("creds:realm-entry-preferred-over-default");
-                                } else if sc.entries[ri].is_none() && state[ri].is_some() {
+                                } else if cur_entries[ri].is_none() && state[ri].is_some() {
                                     out.class("creds:default-used-for-realm-without-entry");
+                                }
+                                if let Some(now) = state[ri].as_ref() {
+                                    if let Some(before) = answered_with[ri].as_ref().filter(|b| **b != cred) {
+                                        cx.flags.updated_creds = true;
+                                        let same_alg = prev.as_ref().map_or(false, |p| p.alg == now.alg);
+                                        out.class(match (before.user == cred.user, same_alg) {
+                                            (true, true) => "update:verified-with-the-new-password-of-the-same-user,same-algorithm",
+                                            (true, false) => "update:verified-with-the-new-password-of-the-same-user,other-algorithm",
+                                            (false, _) => "update:verified-with-another-user",
+                                        });
+                                    } else if store_changed {
+                                        out.class("update:verified-after-a-store-change-that-kept-the-realm's-account");
+                                    }
+                                    answered_with[ri] = Some(cred.clone());
+                                }
+                                // what the realm was (to be) answered with so far: diagnosis of later mismatches
+                                if !cx.stale[ri].contains(&cred) {
+                                    cx.stale[ri].push(cred.clone());
                                 }
                             }
                         }
@@ -1528,6 +2043,19 @@ fn run_scenario(sc: &Scenario, out: &mut CaseOut) {
     if !sc.req.uri.params.is_empty() {
         out.class("uri:with-params");
     }
+    if reqs.iter().any(|r| r.uri.password.is_some()) {
+        out.class("uri:with-user-password");
+    }
+    let embedded = reqs.iter().any(|r| !r.uri.headers.is_empty());
+    if embedded {
+        out.class("uri:target-with-embedded-headers");
+        if reqs.iter().any(|r| r.uri.headers.iter().any(|h| h.0 == "Replaces")) {
+            out.class("uri:target-with-embedded-Replaces");
+        }
+        if reqs.iter().any(|r| !r.uri.headers.is_empty() && !r.uri.params.is_empty()) {
+            out.class("uri:target-with-params-and-embedded-headers");
+        }
+    }
     if sc.realms.iter().any(|r| !r.is_ascii()) {
         out.class("realm:non-ascii");
     }
@@ -1538,16 +2066,29 @@ fn run_scenario(sc: &Scenario, out: &mut CaseOut) {
     if f.non_ascii_cred {
         out.class("creds:non-ascii");
     }
-    if f.sess || f.auth_int || f.userhash || f.reuse || f.non_ascii_cred || f.repeat_again || answered >= 2 {
+    if f.verified_any && embedded {
+        out.class("uri:header-verified-for-target-with-embedded-headers");
+    }
+    if f.sess
+        || f.auth_int
+        || f.userhash
+        || f.reuse
+        || f.non_ascii_cred
+        || f.repeat_again
+        || f.updated_creds
+        || f.changed_request
+        || (f.verified_any && embedded)
+        || answered >= 2
+    {
         out.nontrivial(&serde_json::to_string(sc).unwrap_or_default());
     }
 }
 
 fn check_sequences(sc: &Scenario, out: &mut CaseOut) {
-    run_scenario(sc, out);
+    run_scenario(sc, &wire_by_print, out);
 }
 
-fn check_first_use(fu: &FirstUse, out: &mut CaseOut) {
+fn first_use_scenario(fu: &FirstUse, out: &mut CaseOut) -> Scenario {
     let (entries, default, unrelated) = if fu.by_default {
         (
             vec![None],
@@ -1572,10 +2113,13 @@ fn check_first_use(fu: &FirstUse, out: &mut CaseOut) {
                 nonce: fu.nonce.clone(),
                 rows: vec![RowS { proxy: fu.proxy, ch: fu.ch.clone() }],
                 same_rows: false,
+                keep_rows: false,
             }],
             basic_noise: false,
             uses: 1 + fu.reuses,
             give_up_on_failure: false,
+            store_ops: vec![],
+            new_req: None,
         }],
     };
     if fu.nonce.is_empty() {
@@ -1596,7 +2140,45 @@ fn check_first_use(fu: &FirstUse, out: &mut CaseOut) {
         2 => "offered-userhash:false",
         _ => "offered-userhash:absent",
     });
-    run_scenario(&sc, out);
+    sc
+}
+
+fn check_first_use(fu: &FirstUse, out: &mut CaseOut) {
+    let sc = first_use_scenario(fu, out);
+    run_scenario(&sc, &wire_by_print, out);
+}
+
+/// the same as `first_use_and_reuse`, but method, Request-URI and body the verifier uses are read from the request
+/// a real `Endpoint` put on a (mock) transport; also pins that `wire_by_print` (used by the other subs) sees the same
+fn check_on_the_wire(fu: &FirstUse, out: &mut CaseOut) {
+    let sc = first_use_scenario(fu, out);
+    let rng = fu.rng;
+    match (wire_by_endpoint(&fu.req, rng), wire_by_print(&fu.req)) {
+        (Ok(sent), Ok(printed)) => {
+            if sent.method != printed.method || sent.uri != printed.uri || sent.body != printed.body {
+                out.fail(
+                    "c18.harness/printed-request-differs-from-sent-request",
+                    format!(
+                        "Endpoint sent {} {} ({} body bytes), the other subs assume {} {} ({} body bytes)",
+                        sent.method,
+                        sent.uri,
+                        sent.body.len(),
+                        printed.method,
+                        printed.uri,
+                        printed.body.len()
+                    ),
+                );
+            }
+            if sent.uri.contains('?') {
+                out.class("wire:request-uri-contains-a-question-mark");
+            }
+        }
+        (Err(e), _) | (_, Err(e)) => {
+            out.fail("c18.harness/request-line", e);
+            return;
+        }
+    }
+    run_scenario(&sc, &move |r: &ReqSpec| wire_by_endpoint(r, rng), out);
 }
 
 pub fn property() -> Property {
@@ -1605,11 +2187,15 @@ pub fn property() -> Property {
         id: "C18",
         rule: "a case is a credential store, a request (method, Request-URI, body) and one or more 401/407 responses with Digest challenges; \
                it counts as non-trivial when at least one produced header was verified by the reference verifier AND the case involves a -sess \
-               algorithm, qop=auth-int, userhash, a verified reuse (nc >= 2), non-ASCII credentials, >= 2 answered realms, or an answered nonce that \
-               was challenged again at least twice in a row and reported as failure each time; distinct = distinct case value",
+               algorithm, qop=auth-int, userhash, a verified reuse (nc >= 2), non-ASCII credentials, >= 2 answered realms, an answered nonce that \
+               was challenged again at least twice in a row and reported as failure each time, a header verified with credentials that replaced \
+               the ones the realm was answered with before, a header verified for a request other than the session's first one, or a request \
+               target with embedded URI headers; distinct = distinct case value",
         assumptions: vec![
             "realm, nonce, opaque are qdtext (no quoted-pairs); parameter names lower case; algorithm/stale/userhash are tokens; one challenge per header row (RFC 3261 §7.3.1)",
-            "user names contain no ':'; Request-URIs carry no ?headers (RFC 3261 Table 1); extension methods do not start with a well-known method name",
+            "user names contain no ':'; extension methods do not start with a well-known method name",
+            "the request target is any SipUri value (user:password, uri-parameters, embedded ?headers with non-empty names); the Request-URI the verifier uses is the one ezk puts on the wire (request line printed with UriContext::ReqUri as Endpoint::send_outgoing_request does; on_the_wire reads it from a request a real Endpoint sent and checks both agree)",
+            "a challenge is answered with the credentials the CredentialStore gives for the realm when handle_authenticate is called (entry, else default) and for the request named by RequestParts in that call; the application may change both between responses; a header created earlier is verified with the account and request it was created with",
             "all challenges of one realm in one response share the nonce and have distinct algorithms (RFC 8760 §2.4)",
             "an unchanged nonce is the nonce of the latest answer the verifier accepted for the realm; it stays that through any number of repetitions, also when the client stops sending the entry after a reported failure",
             "reuse is verified against the request the header was created for (on_authorize_request gets no request)",
@@ -1619,11 +2205,18 @@ pub fn property() -> Property {
                       uniformly so every combination of the finite dimensions occurs many times per run (see classes), strings (realm, nonce, user, password, body, URI) are random; \
                       sequences of up to 4 responses over up to 4 realms with up to 3 challenges per realm and up to 3 uses per round; \
                       failure histories of 3..8 responses over 1..2 realms (fresh nonce / identical challenge again / same nonce with other rows / \
-                      fresh nonce without supported challenge; the caller sends the request or gives up after a failure)",
+                      fresh nonce without supported challenge; the caller sends the request or gives up after a failure); \
+                      credential updates: 2..5 responses over 1..2 realms, before 3 of 4 responses 1..2 store operations (password of the same user replaced / \
+                      user replaced / account replaced / entry removed / account of the other realm / default replaced), new nonce with the same rows as \
+                      last time in half of the challenges, another request (method / URI / body) before 1 of 5 responses; the two other history subs carry the \
+                      same operations at low density; 2 of 5 request targets carry 1..3 embedded URI headers, 1 of 5 targets with a user carry a URI password; \
+                      on_the_wire: the first_use_and_reuse cases with the request read back from a real Endpoint's transport",
         subs: vec![
             prop_sub("first_use_and_reuse", first_use_strategy, 2000, 60000, check_first_use),
             prop_sub("challenge_sequences", scenario_strategy, 2000, 60000, check_sequences),
             prop_sub("failure_histories", history_strategy, 1000, 30000, check_sequences),
+            prop_sub("credential_updates", update_strategy, 1000, 30000, check_sequences),
+            prop_sub("on_the_wire", first_use_strategy, 250, 5000, check_on_the_wire),
         ],
     }
 }
